@@ -528,3 +528,106 @@ var rulePanicP2 = &Rule{
 		return obs
 	},
 }
+
+// ---------------------------------------------------------------------------------------------
+// P6: cursor guard — sibling agreement among the callers of beginFileRequest.
+
+// fieldOfResult: v is (a load of) field `name` of the struct value produced by call.
+func fieldOfResult(v ssa.Value, call *ssa.Call, name string, depth int) bool {
+	if depth > 6 {
+		return false
+	}
+	switch x := v.(type) {
+	case *ssa.Field:
+		return x.X == ssa.Value(call) && fieldName(x.X.Type(), x.Field) == name
+	case *ssa.UnOp:
+		if x.Op == token.MUL {
+			if fa, ok := x.X.(*ssa.FieldAddr); ok && fieldName(fa.X.Type(), fa.Field) == name {
+				// the struct lives in a local that the call result was stored to
+				if al, ok := fa.X.(*ssa.Alloc); ok {
+					if refs := al.Referrers(); refs != nil {
+						for _, r := range *refs {
+							if st, ok := r.(*ssa.Store); ok && st.Addr == al && st.Val == ssa.Value(call) {
+								return true
+							}
+						}
+					}
+				}
+			}
+		}
+	case *ssa.Call:
+		if b, ok := x.Call.Value.(*ssa.Builtin); ok && b.Name() == "len" {
+			return false
+		}
+	case *ssa.Convert:
+		return fieldOfResult(x.X, call, name, depth+1)
+	}
+	return false
+}
+
+var reviewedCursorCallers = map[string]string{
+	"(*langserver.LspServer).TextDocumentComplete": "completion at the very end of the buffer (offset == len) is the normal case, so it cannot use the >= guard; it relies on OffsetForPosition never returning an offset beyond the buffer",
+}
+
+var rulePanicP6 = &Rule{
+	Name:    "PANIC/P6-cursor-guard",
+	NeedSSA: true,
+	Text:    "every caller of LspServer.beginFileRequest compares the returned byte offset with len(contents) before using them (sibling agreement: definition, references, rename, highlight, signatureHelp, hover); a handler without the comparison indexes the buffer out of range at the end-of-buffer position — an unrecovered panic",
+	Run: func(c *Ctx) []Ob {
+		var obs []Ob
+		target := c.SSAFunc(langserverPkg, "LspServer", "beginFileRequest")
+		if target == nil {
+			return []Ob{{Key: "PANIC/P6:slots", Verdict: UNDECIDED, Note: "slot unresolved: LspServer.beginFileRequest"}}
+		}
+		n := 0
+		for _, f := range c.ModFns() {
+			for _, b := range f.Blocks {
+				for _, ins := range b.Instrs {
+					call, ok := ins.(*ssa.Call)
+					if !ok || call.Call.StaticCallee() != target {
+						continue
+					}
+					n++
+					key := "PANIC/P6:" + fnKey(f)
+					guarded := false
+					for _, b2 := range f.Blocks {
+						for _, i2 := range b2.Instrs {
+							bo, ok := i2.(*ssa.BinOp)
+							if !ok {
+								continue
+							}
+							switch bo.Op {
+							case token.GEQ, token.GTR, token.LSS, token.LEQ:
+							default:
+								continue
+							}
+							isLen := func(v ssa.Value) bool {
+								cl, ok := v.(*ssa.Call)
+								if !ok {
+									return false
+								}
+								bi, ok := cl.Call.Value.(*ssa.Builtin)
+								return ok && bi.Name() == "len" && fieldOfResult(cl.Call.Args[0], call, "contents", 0)
+							}
+							if (fieldOfResult(bo.X, call, "offset", 0) && isLen(bo.Y)) || (fieldOfResult(bo.Y, call, "offset", 0) && isLen(bo.X)) {
+								if call.Block().Dominates(bo.Block()) {
+									guarded = true
+								}
+							}
+						}
+					}
+					switch {
+					case guarded:
+						obs = append(obs, Ob{Key: key, Site: c.Pos(call.Pos()), Verdict: OK, Note: "offset compared with len(contents) after beginFileRequest"})
+					case reviewedCursorCallers[fnKey(f)] != "":
+						obs = append(obs, Ob{Key: key, Site: c.Pos(call.Pos()), Verdict: OK, Note: "reviewed exception: " + reviewedCursorCallers[fnKey(f)]})
+					default:
+						obs = append(obs, Ob{Key: key, Site: c.Pos(call.Pos()), Verdict: VIOLATION, Note: "uses the result of beginFileRequest without comparing offset with len(contents) (its siblings do): index out of range at the end-of-buffer position"})
+					}
+				}
+			}
+		}
+		obs = append(obs, floor("PANIC/P6-cursor-guard", "callers of beginFileRequest", n, 6))
+		return obs
+	},
+}
